@@ -33,7 +33,8 @@ RULE = ("every tree of U(n) (n up to the tier bound) x {as generated, reversed/s
         "tree x every {1,2} length assignment; every ranked ultrametric tree x height pattern; directly and through "
         "each CSV write/read route); non-trivial = the tree has >= 3 leaves; plus a 'large representatives' layer that is "
         "exhaustive only over the stated set of 18 big trees in bounds()['large_representatives'] (ladders to 65 tips, balanced "
-        "to 64, stars to 100, a broom) with the same oracles and a stated family of subsets / pairs; plus histories on one matrix "
+        "to 64, stars to 100, a broom) with the same oracles and a stated family of subsets / pairs; plus [encode; edit without update; mrca(is_bipartitions_updated=False)] "
+        "histories over the edit menu in bounds()['mrca_after_edit_without_update']; plus histories on one matrix "
         "object (query, re-compile for another tree or table, query) over the menu in bounds()['matrix_object_reuse']")
 ASSUMPTIONS = [
     "reference distances/edge counts/turning nodes are computed from snapshot paths (common prefix); live nodes are "
@@ -53,6 +54,9 @@ ASSUMPTIONS = [
     "UPGMA on ultrametric input is driven with distinct node heights (no ties), including one cherry at height zero "
     "(pendant lengths 0, 0.0 or missing: a distance of exactly 0.0 that is the unique minimum); the textbook-definition layer on "
     "non-ultrametric input skips inputs in which the exact (Fraction) reference meets a tie",
+    "stale encodings: after an edit that does not update the encoding, Tree.mrca(..., is_bipartitions_updated=False) is judged "
+    "on the structure found after the call (brute-force deepest node; None when a queried taxon is on no leaf or not below "
+    "start_node); the edit itself is not judged",
     "object re-use: a matrix re-compiled for source B must answer every query as a fresh matrix of B would (the reference of B); "
     "path steps, mrca, normalisation and write_csv are judged only when the matrix was last compiled from a tree",
     "CSV round trips are written with is_normalize_by_tree_size=False (the signature default of write_csv divides by the "
@@ -86,6 +90,19 @@ def bounds(tier):
         "subset_family": "first, last, middle, {first,last}, {first,second}, last two, {middle,last}, every other (both phases), "
                          "all but first, all but last, all, first half, second half, taxa 9+10, 31+32, 63+64 where present",
         "exhaustive_over": "this stated set only"}
+    b["mrca_after_edit_without_update"] = {
+        "shapes": "U(n), 2 <= n <= %d, rooted and unrooted" % b["mrca_stale_edit_up_to"],
+        "pre_states": ["encode_bipartitions()", "encode_bipartitions() + one mrca call"],
+        "edits": ("reseed_at / reroot_at_node / reroot_at_edge at every internal non-seed node (edge), to_outgroup_position at every "
+                  "non-seed node, all with update_bipartitions=False; swap the taxa of every two leaves; move every non-seed subtree "
+                  "under every other internal node; regraft every leaf on the edge above every other node; add a leaf with a new taxon "
+                  "under every internal node; prune every leaf"),
+        "queries": ("each on its own fresh [build; encode; edit] sequence, always with is_bipartitions_updated=False, argument form "
+                    "rotating over taxa= / taxon_labels= / leafset_bitmask=: every non-empty subset of the leaf taxa without start_node; "
+                    "for every non-seed node as start_node every non-empty subset of its clade, its clade plus one outside taxon, one "
+                    "outside taxon alone; subsets containing a pruned taxon (after the extra first mrca call: the no-start_node queries)"),
+        "not_deciding": "an edit that raises or leaves an improper tree; a start_node that the refresh removes from the tree; "
+                        "queries with the default is_bipartitions_updated=True on a stale encoding are never made"}
     b["matrix_object_reuse"] = {
         "sources": [m[0] for m in REUSE_MENU], "queries": [q[0] for q in REUSE_QUERIES],
         "histories": ("one PhylogeneticDistanceMatrix object: [query q on A; re-compile the same object for B by compile_from_tree or "
@@ -102,11 +119,11 @@ def _bounds(tier):
         return {"max_leaves": 5, "exhaustive_lengths_up_to": 4, "subset_filters_up_to": 5,
                 "nj_all_12_lengths_up_to": 5, "nj_pattern_leaves": 6, "upgma_ranked_up_to": 6,
                 "upgma_definition_up_to": 4, "mrca_start_node_up_to": 4, "mrca_ns_configs": MRCA_NS,
-                "double_unifurcations_up_to": 3, "nj_zero_pendant_up_to": 5, "upgma_zero_cherry_all_orders_up_to": 5}
+                "double_unifurcations_up_to": 3, "nj_zero_pendant_up_to": 5, "upgma_zero_cherry_all_orders_up_to": 5, "mrca_stale_edit_up_to": 4}
     return {"max_leaves": 6, "exhaustive_lengths_up_to": 4, "subset_filters_up_to": 6,
             "nj_all_12_lengths_up_to": 6, "nj_pattern_leaves": 7, "upgma_ranked_up_to": 7,
             "upgma_definition_up_to": 5, "mrca_start_node_up_to": 5, "mrca_ns_configs": MRCA_NS,
-            "double_unifurcations_up_to": 4, "nj_zero_pendant_up_to": 6, "upgma_zero_cherry_all_orders_up_to": 5}
+            "double_unifurcations_up_to": 4, "nj_zero_pendant_up_to": 6, "upgma_zero_cherry_all_orders_up_to": 5, "mrca_stale_edit_up_to": 5}
 
 
 MRCA_NS = ["exact", "extra_low", "removed_low", "reversed", "extra_high"]
@@ -785,6 +802,271 @@ def check_mrca_start(case, ctx):
 
 
 # ---------------------------------------------------------------------------
+# layer S: [encode; edit without updating the encoding; mrca(..., is_bipartitions_updated=False)]
+#   every query gets its own fresh [build; encode; edit] sequence (the first refreshing call ends the
+#   staleness); it is judged on the structure found AFTER the call.  Queries with the default
+#   is_bipartitions_updated=True on a stale encoding are outside the statement and never made.
+
+NEW_LABEL = "z"
+
+
+def _node_at(tree, path):
+    nd = tree._seed_node
+    for i in path:
+        nd = nd._child_nodes[i]
+    return nd
+
+
+def _in_subtree(p, root):
+    return tuple(p[:len(root)]) == tuple(root)
+
+
+def stale_prepare(case):
+    """build, encode (default arguments), optionally one first mrca call"""
+    n = case["n"]
+    labels = U.LABELS[:n]
+    ns, bit = build.make_namespace(labels, "exact")
+    tree = build.build_tree((case["rooted"], ref.mk(resolve_shape(case["shape"]), lens=1, labels=labels)), ns)
+    tree.encode_bipartitions()
+    if case["pre"] == "encode+mrca":
+        tree.mrca(taxa=[t for t in ns._taxa if t._label in labels])
+    return labels, ns, dict(bit), tree
+
+
+def stale_edit_menu(case):
+    """edit descriptors (JSON-able) enumerated on the encoded tree"""
+    labels, ns, bit, tree = stale_prepare(case)
+    nodes = live_nodes(tree)
+    paths = sorted(nodes)
+    internal = [p for p in paths if nodes[p]._child_nodes]
+    leavesp = [p for p in paths if not nodes[p]._child_nodes]
+    out = []
+    for p in internal:
+        if p:
+            out.append(["reseed_at", list(p)])
+            out.append(["reroot_at_node", list(p)])
+            out.append(["reroot_at_edge", list(p)])       # documented domain: internal edges
+    for p in paths:
+        if p:
+            out.append(["to_outgroup_position", list(p)])
+    for i, p in enumerate(leavesp):
+        for p2 in leavesp[i + 1:]:
+            out.append(["swap_leaf_taxa", list(p), list(p2)])
+    for p in paths:
+        if not p:
+            continue
+        for z in internal:                                   # move the subtree under another internal node
+            if _in_subtree(z, p) or tuple(z) == tuple(p[:-1]):
+                continue
+            out.append(["spr_move_under", list(p), list(z)])
+        if p in leavesp:
+            for y in paths:                                  # regraft the leaf on the edge above y
+                if not y or tuple(y) == tuple(p):
+                    continue
+                out.append(["spr_regraft_on_edge", list(p), list(y)])
+    for z in internal:
+        out.append(["add_leaf_new_taxon", list(z)])
+    if len(leavesp) >= 2:
+        for p in leavesp:
+            out.append(["prune_leaf", list(p)])
+    return out
+
+
+def stale_apply(tree, ns, edit):
+    name = edit[0]
+    x = _node_at(tree, edit[1])
+    if name == "reseed_at":
+        tree.reseed_at(x, update_bipartitions=False)
+    elif name == "reroot_at_node":
+        tree.reroot_at_node(x, update_bipartitions=False)
+    elif name == "reroot_at_edge":
+        tree.reroot_at_edge(x.edge, update_bipartitions=False)
+    elif name == "to_outgroup_position":
+        tree.to_outgroup_position(x, update_bipartitions=False)
+    elif name == "swap_leaf_taxa":
+        y = _node_at(tree, edit[2])
+        x.taxon, y.taxon = y.taxon, x.taxon
+    elif name == "spr_move_under":
+        z = _node_at(tree, edit[2])
+        x._parent_node.remove_child(x)
+        z.add_child(x)
+    elif name == "spr_regraft_on_edge":
+        y = _node_at(tree, edit[2])
+        x._parent_node.remove_child(x)
+        py = y._parent_node
+        idx = py._child_nodes.index(y)
+        py.remove_child(y)
+        nn = tree.node_factory()
+        py.insert_child(idx, nn)
+        nn.add_child(y)
+        nn.add_child(x)
+    elif name == "add_leaf_new_taxon":
+        x.new_child(taxon=ns.new_taxon(label=NEW_LABEL))
+    elif name == "prune_leaf":
+        tree.prune_subtree(x, update_bipartitions=False)
+    else:
+        raise ValueError(name)
+
+
+def _decidable(tree):
+    """the edited tree must be a proper tree whose leaves carry distinct taxa and whose internal nodes carry none"""
+    if ref.wellformed(tree):
+        return None
+    snap = ref.snap_node(tree._seed_node)
+    seen = set()
+    for nd in ref.preorder(snap):
+        if nd[3]:
+            if nd[0] is not None:
+                return None
+        else:
+            if nd[0] is None or nd[0] in seen:
+                return None
+            seen.add(nd[0])
+    return snap
+
+
+def stale_queries(snap, removed):
+    """[(subset, start path or None)] on the edited structure: every non-empty subset of the leaf taxa without
+    start_node; for every node X as start_node: every non-empty subset of its clade and, where one exists,
+    X's clade plus one outside taxon and one outside taxon alone; subsets containing a pruned taxon"""
+    R = RefIndex(snap)
+    labels = sorted(R.leafpath)
+    out = []
+    for S in subsets(labels):
+        out.append((list(S), None))
+    for p in R.order:
+        cl = sorted(R.clade(p))
+        if not p:
+            continue
+        for S in subsets(cl):
+            out.append((list(S), list(p)))
+        outside = [l for l in labels if l not in cl]
+        if outside:
+            out.append((cl + outside[:1], list(p)))
+            out.append((outside[-1:], list(p)))
+    for r in removed:
+        out.append(([r], None))
+        out.append((labels[:1] + [r], None))
+    return out
+
+
+def check_stale(case, ctx):
+    """one (shape, rooting, pre-state, edit): every query on its own fresh sequence"""
+    V = Viol(ctx, case)
+    edit = case["edit"]
+    q = 0
+    with warnings.catch_warnings():
+        warnings.simplefilter("ignore")
+        # template: what does the edited tree look like?
+        try:
+            labels, ns, bit, tree = stale_prepare(case)
+            stale_apply(tree, ns, edit)
+        except Exception:
+            ctx.count("stale_edits_not_deciding_edit_raised")
+            return 0
+        snap0 = _decidable(tree)
+        if snap0 is None:
+            ctx.count("stale_edits_not_deciding_tree_not_proper")
+            return 0
+        removed = [l for l in labels if l not in ref.leaves(snap0)]
+        queries = stale_queries(snap0, removed)
+        if case["pre"] == "encode+mrca":
+            queries = [x for x in queries if x[1] is None]
+        for qi, (S, sp) in enumerate(queries):
+            route = ROUTES[qi % 3]
+            labels, ns, bit, tree = stale_prepare(case)
+            stale_apply(tree, ns, edit)
+            tx = taxa_of(ns)
+            if NEW_LABEL in tx:
+                bit[NEW_LABEL] = len(labels)
+            kw = {"is_bipartitions_updated": False}
+            if route == "taxa":
+                kw["taxa"] = [tx[l] for l in S]
+            elif route == "taxon_labels":
+                kw["taxon_labels"] = list(S)
+            else:
+                m = 0
+                for l in S:
+                    m |= 1 << bit[l]
+                kw["leafset_bitmask"] = m
+            start = None
+            if sp is not None:
+                start = _node_at(tree, sp)
+                kw["start_node"] = start
+            stag = "no-start-node" if sp is None else "start_node"
+            base = "Tree.mrca|refresh-requested|after:%s|%s|%s" % (edit[0], route, stag)
+            q += 1
+            try:
+                got = tree.mrca(**kw)
+            except Exception as e:
+                V("%s|exception|%s" % (base, type(e).__name__), "after %r, mrca(%s=%r, start=%r, is_bipartitions_updated=False) raised %r on %s" % (
+                    edit, route, S, sp, e, ref.to_newick(snap0, False)))
+                continue
+            snap = _decidable(tree)
+            if snap is None:
+                V(base + "|tree-damaged", "after %r and the refreshing mrca call the tree is no longer a proper tree" % (edit,))
+                continue
+            ids = live_paths(tree)
+            R = RefIndex(snap)
+            if start is not None and id(start) not in ids:
+                ctx.count("stale_queries_not_deciding_start_node_left_the_tree")
+                continue
+            present = all(l in R.leafpath for l in S)
+            want = "None"
+            if present:
+                lca = R.lca([R.leafpath[l] for l in S])
+                if start is None or _in_subtree(lca, ids[id(start)]):
+                    want = lca
+            gp = "None" if got is None else ids.get(id(got), "not-a-node-of-the-tree")
+            if gp != want:
+                kind = "none-returned" if gp == "None" else ("node-returned" if want == "None" else "wrong-node")
+                V("%s|%s" % (base, kind), "[%s; %r; mrca(%s=%r%s, is_bipartitions_updated=False)] on %s (rooted=%r) now %s: got node at %r, deepest node whose leaves include them all%s is at %r" % (
+                    case["pre"], edit, route, S, "" if sp is None else ", start_node=node at %r" % (sp,), ref.to_newick(ref.mk(resolve_shape(case["shape"])), False),
+                    case["rooted"], ref.to_newick(snap, False), gp, "" if sp is None else " below the start node", want))
+    return q
+
+
+def stale_chunks(tier):
+    b = bounds(tier)
+    out = []
+    for n in range(2, b["mrca_stale_edit_up_to"] + 1):
+        ns = len(U.shapes(n))
+        step = 1 if n >= 4 else 4
+        for lo in range(0, ns, step):
+            out.append({"kind": "stale", "n": n, "lo": lo, "hi": min(ns, lo + step), "tier": tier})
+    return out
+
+
+def run_stale(chunk, ctx):
+    n = chunk["n"]
+    shapes = U.shapes(n)
+    for si in range(chunk["lo"], chunk["hi"]):
+        shape = shapes[si]
+        for rooted in (True, False):
+            for pre in ("encode", "encode+mrca"):
+                base = {"kind": "stale", "n": n, "shape": shape, "rooted": rooted, "pre": pre}
+                try:
+                    with warnings.catch_warnings():
+                        warnings.simplefilter("ignore")
+                        menu = stale_edit_menu(base)
+                except Exception:
+                    ctx.count("stale_prepare_raised")
+                    continue
+                for edit in menu:
+                    case = dict(base, edit=edit)
+                    q = check_stale(case, ctx)
+                    ctx.count("stale_edits")
+                    if q:
+                        ctx.case(("stale", shape, rooted, pre, repr(edit)), n >= 3, n=q)
+                        ctx.count("stale_edits_deciding")
+                        ctx.count("stale_mrca_queries", q)
+        if n >= 3:
+            ctx.sample({"layer": "encode; edit; mrca(is_bipartitions_updated=False)", "tree": ref.to_newick(ref.mk(shape), False),
+                        "edits": len(menu)}, 1)
+    return None
+
+
+# ---------------------------------------------------------------------------
 # layer NJ / UPGMA
 
 class OrderedTaxa(set):
@@ -1213,7 +1495,7 @@ def check_upgma_def(case, ctx):
 
 def chunks(tier):
     b = bounds(tier)
-    out = big_chunks(tier) + reuse_chunks(tier)      # the long ones first
+    out = big_chunks(tier) + stale_chunks(tier) + reuse_chunks(tier)      # the long ones first
     for n in range(1, b["max_leaves"] + 1):
         ns = len(U.shapes(n))
         step = {1: 1, 2: 1, 3: 1, 4: 2, 5: 4, 6: 8}[n]
@@ -1644,6 +1926,8 @@ def run_chunk(chunk, ctx):
         return run_big(chunk, ctx)
     if chunk["kind"] in ("reuse", "reuse3"):
         return run_reuse(chunk, ctx)
+    if chunk["kind"] == "stale":
+        return run_stale(chunk, ctx)
     return {"dist": run_dist, "mrca": run_mrca, "nj": run_nj, "upgma": run_upgma, "upgmadef": run_upgmadef}[chunk["kind"]](chunk, ctx)
 
 
@@ -1885,7 +2169,7 @@ def run_upgmadef(chunk, ctx):
 def replay(case, ctx):
     k = case.get("kind")
     fn = {"pdm": check_pdm, "tm": check_tm, "ndm": check_ndm, "mrca": check_mrca, "mrca_start": check_mrca_start,
-          "nj": check_nj, "upgma": check_upgma, "upgmadef": check_upgma_def, "csvmat": check_csvmat, "reuse": check_reuse}.get(k)
+          "nj": check_nj, "upgma": check_upgma, "upgmadef": check_upgma_def, "csvmat": check_csvmat, "reuse": check_reuse, "stale": check_stale}.get(k)
     if fn is None:
         raise ValueError("unknown case kind %r" % k)
     fn(case, ctx)
